@@ -125,6 +125,13 @@ func (w *World) canon(v ssa.Value, d int) string {
 	case *ssa.Extract:
 		return w.canon(x.Tuple, d+1) + "#" + fmt.Sprint(x.Index)
 	case *ssa.Phi:
+		if w.phiSubst != nil {
+			if nv, ok := w.phiSubst[x]; ok && nv != ssa.Value(x) {
+				if _, again := nv.(*ssa.Phi); !again {
+					return w.canon(nv, d+1)
+				}
+			}
+		}
 		if w.phiVisiting == nil {
 			w.phiVisiting = map[*ssa.Phi]bool{}
 		}
